@@ -772,7 +772,10 @@ def merge(chunks, real_text):
                 if nxt == prv + 1:
                     choice = ('before', nxt)
                 else:
-                    choice = ('after', prv) if _binds_prev(t) else ('before', nxt)
+                    # a ghost `let` / `broadcast use` directly after an opening brace captures the state at block entry: it stays at
+                    # the start of the block when new statements (a guard around the first statement, say) appear after it
+                    at_block_start = p > 0 and r0[p - 1] == '{' and re.match(r'\s*(let ghost|broadcast use)\b', t) is not None
+                    choice = ('after', prv) if (_binds_prev(t) or at_block_start) else ('before', nxt)
             elif nxt is not None:
                 choice = ('before', nxt)
             elif prv is not None:
